@@ -1,13 +1,25 @@
 #!/bin/sh
-# tools/run_seeded.sh <seed-id> [tier]  -- apply /verif/seeded/<id>/patch.diff to /repo, run the property's check, restore /repo.
-# prints the check output; exit code = the check's exit code (1 expected: the seeded change must be detected)
-id="$1"; tier="${2:-quick}"
+# tools/run_seeded.sh <seed-id> [tier] [--in-repo]
+# Runs the property's check against squid WITH the seeded change /verif/seeded/<id>/patch.diff applied.
+# default: in a throw-away scratch worktree (so concurrent work on /repo is not disturbed);
+# --in-repo: apply to /repo itself, run, and undo straight afterwards.
+# exit code = the check's exit code (1 expected: the seeded change must be detected)
+id="$1"; tier="${2:-quick}"; where="$3"
 d=/verif/seeded/$id
 prop=$(python3 -c "import json;print(json.load(open('$d/meta.json'))['property'])")
-if [ -n "$(git -C /repo status --porcelain --untracked-files=no)" ]; then echo "/repo has local modifications; refusing"; exit 3; fi
-git -C /repo apply "$d/patch.diff" || { echo "patch does not apply"; exit 3; }
-trap 'git -C /repo checkout -- . ' EXIT INT TERM
-cd /verif && ./check "$prop" --tier "$tier" --no-evidence
+if [ "$where" = "--in-repo" ]; then
+  if [ -n "$(git -C /repo status --porcelain --untracked-files=no)" ]; then echo "/repo has local modifications; refusing"; exit 3; fi
+  git -C /repo apply "$d/patch.diff" || { echo "patch does not apply"; exit 3; }
+  trap 'git -C /repo checkout -- . ' EXIT INT TERM
+  R=/repo
+else
+  R=/tmp/seedrun-$id-$$
+  /verif/tools/mk_scratch.sh "$R" >/dev/null || exit 3
+  trap 'git -C /repo worktree remove --force "$R" >/dev/null 2>&1; rm -rf "$R"' EXIT INT TERM
+  git -C "$R" apply "$d/patch.diff" || { echo "patch does not apply"; exit 3; }
+fi
+cd /verif && VERIF_BUILD=/verif/build/seeded-$id ./check "$prop" --tier "$tier" --no-evidence --repo "$R"
 rc=$?
+rm -rf /verif/build/seeded-$id
 echo "seeded $id property=$prop tier=$tier exit=$rc"
 exit $rc
